@@ -116,6 +116,13 @@ func DeepEqual(x, y interface{}) bool {
 		typy = typy.Elem()
 	}
 
+	// two integers are compared exactly: a float64 cannot tell 64-bit neighbours apart
+	if negx, magx, ok := parseIntIfOk(typx); ok {
+		if negy, magy, ok := parseIntIfOk(typy); ok {
+			return negx == negy && magx == magy
+		}
+	}
+
 	flx, okx := parseFloatIfOk(typx)
 	fly, oky := parseFloatIfOk(typy)
 	if okx && oky {
@@ -168,6 +175,21 @@ func parseNumericText(val reflect.Value) (float64, bool) {
 	}
 	f, err := strconv.ParseFloat(text, 64)
 	return f, err == nil
+}
+
+// parseIntIfOk returns sign and magnitude of an integer value
+func parseIntIfOk(val reflect.Value) (neg bool, mag uint64, ok bool) {
+	switch val.Kind() {
+	case reflect.Int, reflect.Int8, reflect.Int16, reflect.Int32, reflect.Int64:
+		i := val.Int()
+		if i < 0 {
+			return true, uint64(-(i + 1)) + 1, true
+		}
+		return false, uint64(i), true
+	case reflect.Uint, reflect.Uint8, reflect.Uint16, reflect.Uint32, reflect.Uint64, reflect.Uintptr:
+		return false, val.Uint(), true
+	}
+	return false, 0, false
 }
 
 func parseFloatIfOk(val reflect.Value) (float64, bool) {
